@@ -138,7 +138,9 @@ func bytepad(input []byte, w int) []byte {
 	buf := make([]byte, 0, maxEncodeLen+len(input)+w)
 	buf = append(buf, leftEncode(uint64(w))...)
 	buf = append(buf, input...)
-	padlen := w - (len(buf) % w)
+	// pad with zeros up to the next multiple of w; no padding is needed if
+	// the length is already a multiple of w (NIST SP 800-185 section 2.3.3)
+	padlen := (w - (len(buf) % w)) % w
 	return append(buf, make([]byte, padlen)...)
 }
 
